@@ -124,7 +124,8 @@ static void fill(C& c, Model& m, unsigned n)
 static bool oneOp(C& a, Model& ma, C& b, Model& mb)
 {
 #if CONT == 1
-  unsigned op = vf_pick(ma.n ? 15 : 9);
+  unsigned op = vf_pick(ma.n ? 16 : 10);
+  if(op == (ma.n ? 15u : 9u)) { int x = (int)vf_u32(); E& r = b.append(E(x)); mb.insertAt(mb.n, x, &r); return true; }   // an element for the other container (e.g. after a swap)
   switch(op)
   {
   case 0: return false;
@@ -170,7 +171,8 @@ static bool oneOp(C& a, Model& ma, C& b, Model& mb)
   case 14: a.clear(); ma.n = 0; break;
   }
 #else
-  unsigned op = vf_pick(ma.n ? 8 : 4);
+  unsigned op = vf_pick(ma.n ? 9 : 5);
+  if(op == (ma.n ? 8u : 4u)) { int x = (int)vf_u32(); E& r = b.append(x); mb.insertAt(mb.n, x, &r); return true; }   // an element for the other container (e.g. after a swap)
   switch(op)
   {
   case 0: return false;
